@@ -1,8 +1,8 @@
+\* plain left-to-right kernel (the check module generates this and the quirk variants; see harness/checks/c13.py)
 SPECIFICATION Spec
 CONSTANTS Vals = {1, 2} MaxFed = 5 Exempt = 0 Quirk = "none"
 INVARIANT TypeOK
 INVARIANT LenIsFed
 PROPERTY AppendOnly
-PROPERTY StableButTail
 PROPERTY SingleIsConfirmed
 CHECK_DEADLOCK FALSE
